@@ -84,7 +84,9 @@ def s1(chk: Check, proj: Project, w, m, cls) -> None:
     chk.ob("S1", "library:register_tag:guarded", lm.loc(lf), ok, "library.tag(...) only if not is_tag_protected, else TagProtectedError" if ok else "register_tag registers without / before the protection test")
     im, if_ = proj.func("library", "is_tag_protected")
     r = [s for s in stmts(if_) if isinstance(s, ast.Return)]
-    chk.ob("S1", "library:is_tag_protected", im.loc(if_), bool(r) and norm(r[0].value) == f"{params(if_)[1]} in protected_tags", "membership of the tag in the library's protected list")
+    rv = r[0].value if r else None
+    okp = isinstance(rv, ast.Compare) and isinstance(rv.ops[0], ast.In) and norm(rv.left) == params(if_)[1] and isinstance(rv.comparators[0], ast.Name) and any("_protected_tags" in norm(v) for _s, v in assignments(if_, rv.comparators[0].id) if v is not None)
+    chk.ob("S1", "library:is_tag_protected", im.loc(if_), okp, "membership of the tag in the library's protected list")
     # ComponentRegistry uses register_tag (never library.tag directly)
     rm, rf = proj.func("component_registry", "ComponentRegistry._register_to_library")
     chk.ob("S1", "component_registry:_register_to_library:uses-register_tag", rm.loc(rf), bool(calls(rf, "register_tag")) and not [c for c in calls(rf, "tag") if "library" in norm(c.func)], "component tags are registered through register_tag")
